@@ -683,7 +683,10 @@ func (c *Client) handleAgentCallback(event Event) { //nolint:cyclop
 	}
 	// Starting agent transaction.
 	if startErr := c.a.Start(id, timeOut); startErr != nil {
-		c.delete(id)
+		if !c.deleteIfCurrent(id, transaction) {
+			// Completed by another goroutine since it was registered again.
+			return
+		}
 		event.Error = startErr
 		transaction.handle(event)
 		putClientTransaction(transaction)
